@@ -74,6 +74,16 @@ def run_verus_unit(unit_name, prop, tier, only=None):
                            'obligation count changed: registered %d, generated %d' % (expected, len(u['obligations']))))
     udir = os.path.join(BUILD, 'verus', unit_name)
     texts, excluded = ve.precheck(texts, udir)
+    # functions whose proof annotations could not be placed (their text changed under an anchor): same treatment as functions
+    # outside the subset - the function alone is undecided, its contract stays in force for its callers
+    for q_, anchors_ in getattr(trace, 'lost', {}).items():
+        key_ = q_
+        for o in u['obligations']:
+            pat_ = o.fn_pattern.lstrip('*')
+            if pat_ == q_ or pat_.endswith('::' + q_) or q_.endswith('::' + pat_):
+                key_ = pat_
+                break
+        excluded.setdefault(key_, 'proof annotation anchor lost: %r' % anchors_[0][:80])
     info['outside_subset'] = excluded
     if excluded:
         keep = []
